@@ -215,7 +215,7 @@ Proof.
   destruct (parsed_text fo is_write_kind q) as [st| | | | |]; cbn [tbind] in Hpl; try discriminate Hpl.
   destruct st as [x|p prs|p ks|p wp w lim]; [|eauto|eauto|].
   - cbn [to_check] in Hpl.
-    destruct (negb _); [discriminate Hpl|]. destruct (match s_group x with Some _ => _ | None => _ end); [discriminate Hpl|].
+    destruct (negb _); [discriminate Hpl|].
     destruct (build_check fo true _) as [c2|[]| |] eqn:Hb; cbn [of_check tbind] in Hpl; try discriminate Hpl.
     unfold build_check in Hb. inv_bind Hb as s2 Hs2 Hb. inv_bind Hb as u Hu Hb. inversion Hb; subst c2.
     cbn [check_stmt] in Hs2. unfold check_select in Hs2. cbv zeta in Hs2.
